@@ -166,7 +166,7 @@ class Run:
             r['instances'] += 1
             r['ok'] += 1 if o.ok else 0
         cov = {
-            'explanation': self.explanation,
+            'explanation': self.explanation or self.technique,
             'obligations': total,
             'discharged': ok,
             'evaluations': total,
